@@ -11,6 +11,7 @@
   `removeStates_renOK` shows the concrete rank-based renumbering is one.
 -/
 import NmfuModel.Opt
+import NmfuProps.C05Opt
 namespace Nmfu
 
 def Tree.mapL {A Q L L' : Type} (f : L → L') : Tree A Q L → Tree A Q L'
@@ -786,6 +787,22 @@ theorem C05_remove_states_call (M : Machine) (keep : Array Bool) (hC : M.closedU
   rw [← hk] at h1
   rw [h1] at hsim
   exact hsim
+
+/-! ### the two passes together -/
+
+/-- **One round of the default optimisation level**, for every machine: simplifying the else-transitions of a
+    deterministic table and then removing any set of states closed under reference leaves every dispatch the same up
+    to the renumbering — the two theorems compose (the harness checks that the snapshots of a compilation form such a
+    chain, `pass_chains`). -/
+theorem C05_O1_round_preserves (M : Machine) (hd : M.deterministic = true) (keep : Array Bool)
+    (hC : M.simplifyElse.closedUnder keep = true) (o : SemOpts) (fuel : Nat) (s : Int) (x adv : Nat)
+    (hs : goodB M.simplifyElse keep s = true) :
+    Sim (renT (renumber keep M.simplifyElse.states.size))
+      ((M.simplifyElse.removeStates keep).dispatch o fuel (renT (renumber keep M.simplifyElse.states.size) s) x adv)
+      (M.dispatch o fuel s x adv) := by
+  have h := C05_remove_states_preserves M.simplifyElse keep hC o fuel s x adv hs
+  rw [Machine.simplifyElse_dispatch M hd o fuel s x adv] at h
+  exact h
 
 /-! ### the hypothesis is satisfiable and the theorem is not about the identity -/
 
